@@ -17,10 +17,11 @@ import (
 
 // loopEnv is everything one loop left behind for the oracle.
 type loopEnv struct {
-	key     string
-	cfg     loopCfg
-	sites   map[string]*site
-	dataset map[string][]rdbx.Key // site → keys it held before anything started
+	key       string
+	cfg       loopCfg
+	sites     map[string]*site
+	dataset   map[string][]rdbx.Key // site → keys it held before anything started
+	preloaded map[string]bool       // ids of A's dataset keys that B held (same content) before anything started
 	// LateReverse: offset of B's stream at the instant B's snapshot was taken (-1 otherwise)
 	lateSnapOff int64
 	issued      map[string][]issued // site → what its harness clients did
@@ -633,6 +634,9 @@ func (e *loopEnv) judge(run *harness.Run, X string) *siteView {
 				if n > 0 {
 					run.Count("filtered_but_delivered", 1)
 				}
+			case n == 0 && c.KeyExists == "ignore" && v.Y == "A" && e.preloaded[id]:
+				// the peer held the key already and the configured policy says: leave it alone
+				run.Count("snapshot_keys_left_alone_at_the_peer_under_ignore", 1)
 			case n == 0:
 				e.violation(run, fmt.Sprintf("lost|kind=snapshot-key|%s", ctx),
 					fmt.Sprintf("site %s: snapshot key %q of site %s was not replayed by the completed snapshot phase of link %s→%s", X, k.Key, v.Y, v.Y, X), e.witness(nil))
